@@ -337,3 +337,36 @@ val run_top :
   bool -> z -> z -> z -> bool -> (nat -> z) -> aexpr -> z option option
 
 val env_of_list : z list -> nat -> z
+
+type narrow_cmp =
+| CmpLt
+| CmpLe
+
+val cmp_holds : narrow_cmp -> z -> z -> bool
+
+type choice =
+| CNarrow
+| CBase of z * bool
+| CFatal
+
+val dispatch_choice : narrow_cmp -> z -> z -> z -> z -> bool -> choice
+
+val narrow_unchecked : binop -> z -> z -> bool -> z -> z -> hres
+
+val narrow_checked :
+  bool -> binop -> z -> z -> z -> z -> bool -> bool -> bool -> bool -> z -> z
+  -> hres
+
+val binop_dispatch_v :
+  bool -> narrow_cmp -> bool -> binop -> z -> z -> z -> z -> bool -> bool ->
+  bool -> bool -> z -> z -> hres
+
+val lshift_td : z -> z -> bool -> z -> z -> z * bool
+
+val oc_of_hres : hres -> oc
+
+val typedef_node :
+  bool -> narrow_cmp -> bool -> cop -> z -> z -> z -> z -> bool -> bool ->
+  bool -> bool -> z -> z -> oc
+
+val nogil_node : bool -> bool -> oc -> oc
